@@ -53,6 +53,8 @@ pub fn registry() -> Vec<Box<dyn Check>> {
         Box::new(rw::RwCheck { id: "C14" }),
         Box::new(rw::RwCheck { id: "C08R" }),
         Box::new(rw::RwCheck { id: "C11R" }),
+        Box::new(rw::RwCheck { id: "C06R" }),
+        Box::new(rw::RwCheck { id: "C13R" }),
         Box::new(rw::StopCheck),
         Box::new(explain::ExplainCheck),
         Box::new(repro::ReproCheck),
